@@ -205,22 +205,22 @@ PROPS = {
                         'propagation (closures over the build context)', 'decoding of the stored value (assumed pure)'],
     },
     'C19': {
-        'units': ['mkdeps', 'depinfo', 'ninja_lex'],
+        'units': ['mkdeps', 'depinfo', 'ninja_lex', 'buildfile'],
         'safety': ['mkdeps', 'depinfo', 'ninja_lex'],
         'design_ref': 'DESIGN.md section 4, C19',
         'claim': 'every dereference in the hand-written parsers is inside the supplied buffer (no terminator assumed), '
                  'every loop terminates (decreases clauses), cursors stay in [begin,end]; Ninja lexer tokens tile the buffer, only blanks are skipped, '
-                 'EndOfFile only at the true end, every other token consumes at least one byte',
-        'not_decided': ['the YAML BuildFile loader', 'rule-variable recursion in ManifestLoader'],
+                 'EndOfFile only at the true end, every other token consumes at least one byte; the build file loader (parseRootNode, parseClientMapping, parseToolsMapping, parseTargetsMapping, parseNodesMapping, parseCommandsMapping) over an arbitrary YAML document (every node reached is of arbitrary kind): a node is down-cast to ScalarNode / MappingNode / SequenceNode only after the matching kind test, a mapping iterator is dereferenced and advanced only before the end, a node text is read only of a scalar',
+        'not_decided': ['llvm::yaml itself (scanner / parser), the string handling of the loader', 'the Ninja parser and ManifestLoader (rule-variable recursion)', 'BinaryDecoder bounds on stored values'],
     },
     'C20': {
-        'units': ['capi'],
+        'units': ['capi', 'capi_cb'],
         'design_ref': 'DESIGN.md section 4, C20',
         'claim': 'the C entry points llb_buildengine_task_needs_input / must_follow / discovered_dependency / task_is_complete / '
                  'build / attach_db call the C++ engine exactly once with the key or value bytes and explicit length (NUL-safe), '
-                 'the same input id, force_change, schema version and recreateUnmatchedVersion == true, and return the engine\'s answer',
+                 'the same input id, force_change, schema version and recreateUnmatchedVersion == true, and return the engine\'s answer; the callback half: CAPITask::start / provideValue / inputsAvailable and CAPIRule::createTask / isResultValid / updateStatus hand the client its own context, the engine context, the task interface, the input id, the value bytes with their length and the status unchanged, call the client exactly once, and treat a missing is_result_valid / update_status callback as valid / no-op',
         'not_decided': ['event-by-event equality of whole builds (follows from the forwarders being identities)',
-                        'the CAPIRule/CAPITask callback wrappers and BuildDB-C-API.cpp'],
+                        'lookupRule / cycleDetected / error of the delegate wrapper and BuildDB-C-API.cpp'],
     },
 }
 
